@@ -8,6 +8,7 @@
 // are the monitor's snapshot, the recomputed ones come from the learners the fold model kept) and through the necessary
 // conditions on the kept per-round history.
 #include "mldata.h"
+#include <nano/wlearner/hinge.h>
 
 #include <nano/gboost/model.h>
 #include <nano/gboost/result.h>
@@ -197,6 +198,16 @@ tensor4d_t linear_predict(const dataset_t& dataset, const indices_t& samples, co
     tensor4d_t outputs(cat_dims(samples.size(), dataset.target_dims()));
     ::nano::linear::predict(inputs, weights, bias, outputs.tensor());
     return outputs;
+}
+
+std::string learner_names(const rwlearners_t& wlearners)
+{
+    std::string s;
+    for (const auto& w : wlearners)
+    {
+        s += " " + w->type_id();
+    }
+    return s;
 }
 
 tensor4d_t gboost_predict(const dataset_t& dataset, const indices_t& samples, const tensor1d_t& bias, const rwlearners_t& wlearners)
@@ -451,8 +462,14 @@ void body(ctx_t& c)
                 const bool boundary = near_boundary(target, outputs, ::nano::size(dataset.target_dims()));
                 // looser than for linear models: the stored values come from incrementally accumulated outputs; and relative to
                 // the magnitude of the terms for ill-conditioned affine learners
-                const auto cond = std::max(1.0, term_scale(dataset, stored->m_wlearners) / max_abs(outputs));
-                const auto tol  = 1e-8 * cond;
+                // ... and ABSOLUTE in the terms when the outputs themselves are huge: a hinge whose active side starts 1e-15 from its
+                // threshold has coefficients of 1e15; one sample's output is then 16 digits of cancellation (w * x + b), the
+                // library obtains the stored values once by predicting and once by multiplying the predictions with the local
+                // shrinkage ratio, and the two differ by eps * |w * x| ~ 0.5 in that output - rounding, not bookkeeping
+                const auto term  = term_scale(dataset, stored->m_wlearners);
+                const auto cond  = std::max(1.0, term / max_abs(outputs));
+                const auto noise = 64.0 * std::numeric_limits<double>::epsilon() * term;
+                const auto tol   = std::max(1e-8 * cond, noise);
                 if (cond > 1e4)
                 {
                     c.probe("ill_conditioned_fold_models");
@@ -461,13 +478,18 @@ void body(ctx_t& c)
                 {
                     c.probe("error_statistics_skipped_near_decision_boundary");
                 }
-                if ((!boundary && !same_stats(result.stats(trial, fold, sp, ml::value_type::errors), stats_of(errors), tol, why)) ||
+                if (noise > 1e-9)
+                {
+                    c.probe("error_statistics_skipped_for_cancelling_terms");
+                }
+                if ((!boundary && !(noise > 1e-9) && !same_stats(result.stats(trial, fold, sp, ml::value_type::errors), stats_of(errors), tol, why)) ||
                     !same_stats(result.stats(trial, fold, sp, ml::value_type::losses), stats_of(losses), tol, why))
                 {
                     c.fail("fold-statistics-differ", "gboost (trial " + std::to_string(trial) + ", fold " + std::to_string(fold) + ", " +
                                                          (split == 0 ? "train" : "valid") + ", " + std::to_string(stored->m_wlearners.size()) +
                                                          " weak learners kept, " + std::to_string(stored->m_statistics.size<0>() - 1) +
-                                                         " rounds kept): stored statistics are not those of the stored fold model: " + why);
+                                                         " rounds kept; learners:" + learner_names(stored->m_wlearners) +
+                                                         "): stored statistics are not those of the stored fold model: " + why);
                     break;
                 }
                 (split == 0 ? mean_train : mean_valid) = result.stats(trial, fold, sp, ml::value_type::errors).m_mean;
@@ -581,8 +603,10 @@ void body(ctx_t& c)
         const auto          outputs  = model.predict(dataset, samples);
         score(dataset, *loss, samples, outputs, errors, losses);
         const bool boundary = near_boundary(target, outputs, ::nano::size(dataset.target_dims()));
-        if (!c.failed() && ((!boundary && !same_stats(result.stats(ml::value_type::errors), stats_of(errors), 1e-9 * cond, why)) ||
-                            !same_stats(result.stats(ml::value_type::losses), stats_of(losses), 1e-9 * cond, why)))
+        const auto noise = 64.0 * std::numeric_limits<double>::epsilon() * term_scale(dataset, model.wlearners());
+        const auto stol  = std::max(1e-9 * cond, noise);
+        if (!c.failed() && ((!boundary && !(noise > 1e-9) && !same_stats(result.stats(ml::value_type::errors), stats_of(errors), stol, why)) ||
+                            !same_stats(result.stats(ml::value_type::losses), stats_of(losses), stol, why)))
         {
             c.fail("final-statistics-differ", "gboost: final statistics are not those of the returned model on the fit samples: " + why);
         }
